@@ -57,6 +57,15 @@ def make_nm(init):
     args = dict(u=float(F(init["u"])), N=N, t=float(F(init["t"])), random_order=init["ro"])
     if init.get("test") is not None:
         args["test"] = getattr(NM, init["test"])
+    # `omit`: constructor arguments LEFT OUT of the call because their value is the documented default
+    # (NonnegMean() = alpha_mart, u=1, N=inf, t=1/2, random_order=True); an argument is only ever left out when the
+    # case's value equals that default, so the configuration is the same one and the model request does not change
+    om = set(init.get("omit") or ())
+    dflt = {"u": F(init["u"]) == 1, "N": init["N"] is None, "t": F(init["t"]) == F(1, 2), "random_order": init["ro"] is True,
+            "test": init.get("test") == "alpha_mart"}
+    for k in om:
+        if dflt.get(k):
+            args.pop(k, None)
     if init.get("estim") is not None:
         args["estim"] = getattr(NM, init["estim"])
     if init.get("bet") is not None:
@@ -70,7 +79,8 @@ def make_nm(init):
     if init.get("pre_call"):
         try:
             with np.errstate(all="ignore"):
-                nm.test(np.array([args["u"] / 2, 0.0, args["u"], args["u"] / 4]))
+                u0_ = float(F(init["u"]))
+                nm.test(np.array([u0_ / 2, 0.0, u0_, u0_ / 4]))
         except Exception:  # noqa: the earlier use may fail; what counts is the call that follows
             pass
     if init.get("u_now") is not None:
@@ -87,6 +97,17 @@ def make_nm(init):
 
 
 def xs(case):
+    a = _xs_array(case)
+    form = case.get("x_form")
+    if form in ("list", "tuple"):
+        # the sample handed over as a plain Python sequence (alpha_mart / betting_mart / the estimators document
+        # "x: list corresponding to the data"): same numbers, another container
+        seq = [v.item() for v in a]
+        return seq if form == "list" else tuple(seq)
+    return a
+
+
+def _xs_array(case):
     vals = [F(v) for v in case["x"]]
     if case.get("int_dtype") and vals and all(v.denominator == 1 for v in vals):
         # the sample as an integer array / list of ints (0/1 polling data are often stored that way); a string names
@@ -145,8 +166,14 @@ def impl(case):
         lam = np.array([float(F(v)) for v in case["lam"]])
         mu = np.array([float(F(v)) for v in case["mu"]])
         with np.errstate(all="ignore"):
-            eta = nm.lam_to_eta(lam, mu)
-            back = nm.eta_to_lam(eta, mu)
+            if case.get("scalar"):
+                # "lam: float or numpy array": one pair of Python floats per call (the generator keeps mu strictly
+                # inside (0,u) for these cases: Python floats raise on a division by zero where numpy returns inf)
+                eta = [nm.lam_to_eta(float(l), float(m)) for l, m in zip(lam, mu)]
+                back = [nm.eta_to_lam(float(e), float(m)) for e, m in zip(eta, mu)]
+            else:
+                eta = nm.lam_to_eta(lam, mu)
+                back = nm.eta_to_lam(eta, mu)
         return {"st": "ok", "eta": flo(eta), "lam_back": flo(back)}
     raise ValueError(op)
 
@@ -1072,10 +1099,64 @@ def gen_extra(rng, tier):
     return gen_case(rng, tier, op, force_test={"estim": "alpha_mart", "bet": "betting_mart"}.get(op), us=LOW_U)
 
 
+LIST_OK_TESTS = ("alpha_mart", "betting_mart", "kaplan_kolmogorov")
+
+
+def gen_options(rng, tier):
+    """call forms the other streams never use (option-coverage audit, OPTIONS_AUDIT.md):
+      * `omit`: constructor arguments left at their defaults (NonnegMean() is alpha_mart with u=1, N=inf, t=1/2,
+        random_order=True): the case's values ARE the defaults, the call simply does not spell them out;
+      * `x_form`: the sample as a Python list / tuple instead of an array, for the tests, estimators and bets that
+        document "x: list" and accept one (alpha_mart, betting_mart, kaplan_kolmogorov; estim / bet);
+      * `scalar`: the conversion functions called with Python floats, one pair at a time.
+    None of them changes the configuration or the sample, so the model request is the ordinary one."""
+    r = rng.random()
+    if r < 0.45:
+        for _ in range(12):
+            op = rng.choice(["test", "test", "test", "estim", "bet"])
+            c = gen_case(rng, tier, op, force_test={"estim": "alpha_mart", "bet": "betting_mart"}.get(op), us=[F(1)])
+            init = c["init"]
+            if c["stream"] == "malformed":
+                continue
+            # make more of the values the defaults (t = 1/2 already is, 5 times in 8): sampling with replacement,
+            # random order; then leave a random non-empty subset of the default-valued arguments out of the call
+            if rng.chance(0.5) and init["test"] not in ("kaplan_kolmogorov",) and c["stream"] in ("regular", "x==t", "zeros", "all-u", "half-first"):
+                init["N"] = None
+            if rng.chance(0.6) and not (init["test"] == "wald_sprt"):
+                init["ro"] = True
+            dflt = [k for k, ok in (("u", init.get("u_now") is None), ("N", init["N"] is None), ("t", F(init["t"]) == F(1, 2)),
+                                    ("random_order", init["ro"] is True), ("test", init["test"] == "alpha_mart")) if ok]
+            if not dflt:
+                continue
+            init["omit"] = sorted(rng.sample(dflt, rng.randint(1, len(dflt)))) if rng.chance(0.6) else sorted(dflt)
+            c["stream"] = "omit:" + c["stream"]
+            return c
+        return None
+    if r < 0.85:
+        for _ in range(12):
+            op = rng.choice(["test", "test", "test", "estim", "bet"])
+            c = gen_case(rng, tier, op, force_test={"estim": "alpha_mart", "bet": "betting_mart"}.get(op) or rng.choice(LIST_OK_TESTS))
+            if c["stream"] == "malformed":
+                continue
+            c["x_form"] = rng.choice(["list", "list", "tuple"])
+            c["stream"] = c["x_form"] + ":" + c["stream"]
+            return c
+        return None
+    c = gen_case(rng, tier, "conv", force_test="betting_mart")
+    u = F(c["init"]["u_now"] if c["init"].get("u_now") is not None else c["init"]["u"])
+    m = max(1, len(c["x"]))
+    c["lam"] = [S(rng.choice([F(0), F(1, 4), F(1, 2), F(1), F(3, 2)]) / u) for _ in range(m)]
+    c["mu"] = [S(rng.choice([F(1, 8), F(1, 4), F(1, 2), F(3, 4), F(7, 8)]) * u) for _ in range(m)]
+    c["scalar"] = True
+    c["stream"] = "scalar:" + str(c["stream"])
+    return c
+
+
 def gen(rng, n, tier):
     # the additional streams draw from a generator of their own, derived from (not drawn from) the run's generator,
     # and come after the main stream: the main stream is exactly what it was before they existed
     sub = Rng(int(hashlib.sha1(repr(rng.getstate()).encode()).hexdigest()[:15], 16))
+    opt = Rng(int(hashlib.sha1(("options" + repr(rng.getstate())).encode()).hexdigest()[:15], 16))
     k = 0
     while k < n:
         r = rng.random()
@@ -1105,6 +1186,12 @@ def gen(rng, n, tier):
     k = 0
     while k < max(12, n // 7):
         c = gen_extra(sub, tier)
+        if c is not None:
+            yield c
+            k += 1
+    k = 0
+    while k < max(10, n // 12):
+        c = gen_options(opt, tier)
         if c is not None:
             yield c
             k += 1
@@ -1201,6 +1288,8 @@ def null_means(N, t, x):
 def oracle_c12(case, ir):
     """recompute the defining product with exact fractions from the implementation's own estimator/bet
     output and compare with the reported history on the indices whose null mean is regular"""
+    if case.get("op") == "conv":
+        return _oracle_conv(case, ir)
     if not valid_for_wellformed(case) or ir.get("st") != "ok":
         return None
     if case.get("op") == "test" and ir.get("reuse") and not any(math.isnan(v) for v in [ir["p"]] + ir["hist"]):
@@ -1330,6 +1419,25 @@ def oracle_c12(case, ir):
             if abs(ir["hist"][j] - want) > 1e-7 * max(1.0, want):
                 return {"what": f"kaplan_wald: history[{j}] = {ir['hist'][j]!r} but min(1, 1/T_j) = {want!r}"}
         return None
+    return None
+
+
+def _oracle_conv(case, ir):
+    """last sentence of C12: eta = mu (1 + lam (u - mu)), and eta_to_lam undoes lam_to_eta, wherever 0 < mu < u"""
+    if ir.get("st") != "ok":
+        return None
+    init = case["init"]
+    u = F(init["u_now"] if init.get("u_now") is not None else init["u"])
+    for j, (l, m) in enumerate(zip(case["lam"], case["mu"])):
+        l, m = F(l), F(m)
+        if not (0 < m < u) or min(m, u - m) < u / 64:
+            continue
+        want = float(m * (1 + l * (u - m)))
+        if not (abs(ir["eta"][j] - want) <= 1e-9 * max(1.0, abs(want))):
+            return {"what": f"lam_to_eta(lam={float(l)}, mu={float(m)}) = {ir['eta'][j]!r} with u = {float(u)}, but mu (1 + lam (u - mu)) = {want!r}"}
+        if not (abs(ir["lam_back"][j] - float(l)) <= 1e-9 * max(1.0, abs(float(l)))):
+            return {"what": f"eta_to_lam(lam_to_eta(lam, mu), mu) = {ir['lam_back'][j]!r} for lam = {float(l)}, mu = {float(m)}, u = {float(u)}: "
+                            f"the conversions are not mutual inverses" + (" (called with Python floats)" if case.get("scalar") else "")}
     return None
 
 
